@@ -94,7 +94,9 @@ func (sv structValue) invoke(fv reflect.Value) Value {
 		return nilValue
 	}
 	mt := fv.Type()
-	if mt.NumIn() > 0 || mt.NumOut() > 2 {
+	// a method is a property when it takes no arguments and returns a value, or a value and an error
+	if mt.NumIn() > 0 || mt.NumOut() == 0 || mt.NumOut() > 2 ||
+		(mt.NumOut() == 2 && !mt.Out(1).Implements(reflect.TypeOf((*error)(nil)).Elem())) {
 		return nilValue
 	}
 	results := fv.Call([]reflect.Value{})
